@@ -41,7 +41,17 @@ def run(ctx):
             hist[k] = hist.get(k, 0) + v
         if sample and len(samples) < 2:
             samples.append([l[:100] for l in sample])
+    # two handles on one stream (harness/src/twoh.rs): growth judged by the directory entry's length before and
+    # after, refusals judged by the backing bytes and by the same call made again — decided on the implementation
+    rc_t, out_t = C.harness(["twohandles", "--seed", ctx.seed, "--count", 1500 if ctx.tier == "quick" else 30000], timeout=3600)
+    st_t, _, or_t = C.parse_stats(out_t)
+    for msg in [m for m in or_t if m.startswith("C08 ")][:3]:
+        C.add_violation(ctx, "two-handles:" + ("grow" if "grow" in msg else "below-old-length" if "below" in msg else "refusal"), msg[:500],
+                        "# C08: %s\n# replay: harness twohandles --seed %s --count %s (the history is in the message)\n" % (msg[:3000], ctx.seed, 1500 if ctx.tier == "quick" else 30000))
+    if rc_t != 0:
+        ctx.undischarged.append("harness twohandles crashed: " + out_t[-300:])
     ctx.coverage.update({
+        "two_handles_on_one_stream": {"calls": st_t.get("calls", 0), "grows_judged": st_t.get("grows_judged", 0), "refusals_judged": st_t.get("refusals_judged", 0)},
         "evaluations": total_ops,
         "distinct_nontrivial": distinct,
         "rule": P.RULE + ". C08 emphasis: 60% of the handle calls are set_len to lengths around the current one (−70..+70, next/previous multiple of 64, 512 or 4096, multiple+1, half) each followed by a read of the whole stream through the same handle; removals of other streams in between free the sectors being reused; oracle on the implementation: every byte read equals the abstract content (zeros in grown regions)",
